@@ -276,7 +276,7 @@ def check(run):
             c0, _ = t.connect("cli0.example.net")
             for f in range(rng2.randrange(1, 4)):       # up to 3 consecutive faults
                 kind = rng2.choice(["close_after_request", "reset_mid_frame", "handler_none", "handler_raise", "close_with_queued",
-                                    "half_frame_then_close", "dpr_then_close"])
+                                    "half_frame_then_close", "dpr_then_close", "write_error", "write_error"])
                 hist.append(kind)
                 hbh += 1
                 if kind == "close_after_request":
@@ -288,6 +288,17 @@ def check(run):
                     t.remotes[c0].feed(fr[:rng2.randrange(1, len(fr))])
                     t.remotes[c0].reset()
                     t.sim.run()
+                elif kind == "write_error":
+                    import errno as _errno
+                    # the socket fails hard (EPIPE / ECONNRESET) when the answer is written
+                    t.remotes[c0].script_send([("err", rng2.choice([_errno.EPIPE, _errno.ECONNRESET]))])
+                    t.request(c0, hbh, "answer")
+                    t.sim.advance(1)
+                    if not t.remotes[c0].closed_by_node:
+                        run.violation("write-error-closes", {"scenario": f"probe seed {seed}", "faults": list(hist)},
+                                      "connection still open", what="a hard socket write error does not close the connection")
+                        t.remotes[c0].close()
+                        t.sim.run()
                 elif kind == "handler_none":
                     t.request(c0, hbh, "none")
                 elif kind == "handler_raise":
@@ -316,6 +327,17 @@ def check(run):
                     t.sim.advance(1)
                     c0, _ = t.connect("cli0.example.net")
             t.sim.advance(6)
+            # the peer that suffered the faults is served again on its new connection
+            if not t.remotes[c0].closed_by_node:
+                hbh += 1
+                t.obs()
+                t.request(c0, hbh, "answer")
+                t.sim.advance(1)
+                o = t.obs()
+                if (hbh, 2001) not in o["sends"].get(c0, []):
+                    run.violation("served-after-faults", {"scenario": f"probe seed {seed}", "limit": limit, "faults": list(hist)},
+                                  o["sends"].get(c0, []), [(hbh, 2001)],
+                                  what="the peer that went through the faults is not answered on its new connection")
             # the probe: a fresh connection of another peer, CER, limit+2 requests
             pc, cea = t.connect("cli2.example.net")
             case = {"scenario": f"probe seed {seed}", "limit": limit, "faults": hist}
